@@ -65,7 +65,14 @@ class SynImpl:
         self.batch = int(hdr.get("batch", 1))
         self.E = self.batch * int(math.prod(self.shape))
         self.boolin = bool(hdr.get("boolin", False))
-        self.syn = make_synapse(self.cf, self.P, self.shape, self.batch, bool(hdr.get("inplace", False)))
+        if hdr.get("delay_via_setter") and self.cf["dly"] >= self.cf["dtk"]:
+            # built with a maximum delay half a step shorter (the same number of stored steps) and brought to the
+            # configured maximum through the public setter: delayed reads up to the REPORTED maximum must work
+            built = dict(self.cf, dly=self.cf["dly"] - self.cf["dtk"] // 2)
+            self.syn = make_synapse(built, self.P, self.shape, self.batch, bool(hdr.get("inplace", False)))
+            self.syn.delay = self.cf["dly"] * self.P.tick
+        else:
+            self.syn = make_synapse(self.cf, self.P, self.shape, self.batch, bool(hdr.get("inplace", False)))
         self.full = (self.batch,) + self.shape
 
     def apply(self, o: dict) -> dict:
